@@ -20,10 +20,12 @@ pub fn panic_site(stderr: &str) -> String {
         if parts.len() >= 2 {
             // registry paths: keep the crate-relative tail
             let file = parts[0];
-            let file = match file.find("/src/") {
+            let file = match file.rfind("/src/") {
                 Some(p) if file.starts_with('/') => {
                     let pre = &file[..p];
                     let krate = pre.rsplit('/').next().unwrap_or("");
+                    // drop the version suffix of registry crates: pnet_packet-0.33.0 -> pnet_packet
+                    let krate = krate.split('-').next().unwrap_or(krate);
                     format!("{}{}", krate, &file[p..])
                 }
                 _ => file.to_string(),
